@@ -56,6 +56,27 @@ class Expr:
         self.label, self.fn, self.argc, self.refs, self.line = label, fn, argc, list(refs or []), 0
         # explicit argument list of the call (then `refs` stand outside it): "L" literal, ("B", name) bare identifier, ("S", attr) SELF.attr
         self.args = args
+        # the statement around the assignment that carries the expression (function bodies only): (kind, literal) with kind
+        # if_then / if_else / case / case_otherwise / while / until — every branch is resolved, reachable or not
+        self.wrap = None
+
+    def stmt_lines(self, lhs):
+        """-> (text lines of the statement, index of the line that carries the expression)"""
+        a = f"{lhs} := {self.text()};"
+        if not self.wrap:
+            return [a], 0
+        k, lit = self.wrap
+        if k == "if_then":
+            return [f"IF {lit} THEN", "  " + a, "END_IF;"], 1
+        if k == "if_else":
+            return [f"IF {lit} THEN", f"  {lhs} := 0;", "ELSE", "  " + a, "END_IF;"], 3
+        if k == "case":
+            return ["CASE 1 OF", "  2 : " + a, f"  OTHERWISE : {lhs} := 0;", "END_CASE;"], 1
+        if k == "case_otherwise":
+            return ["CASE 1 OF", f"  2 : {lhs} := 0;", "  OTHERWISE : " + a, "END_CASE;"], 2
+        if k == "while":
+            return [f"REPEAT WHILE {lit};", "  " + a, "END_REPEAT;"], 1
+        return [f"REPEAT UNTIL {lit};", "  " + a, "END_REPEAT;"], 1
 
     def text(self):
         if self.args is not None:
@@ -301,6 +322,12 @@ def gen_schema(rng, size=6, tag="", pre=""):
     return s
 
 
+# statements whose body is controlled by a literal: (kind, literal)
+LITERAL_WRAPS = [("if_then", "TRUE"), ("if_then", "FALSE"), ("if_then", "UNKNOWN"), ("if_then", "(FALSE)"), ("if_then", "(TRUE)"),
+                 ("if_else", "TRUE"), ("if_else", "FALSE"), ("if_else", "UNKNOWN"), ("case", "1"), ("case_otherwise", "1"),
+                 ("while", "FALSE"), ("until", "TRUE")]
+
+
 def int_attrs_visible(s, e):
     """INTEGER attributes a bare identifier inside `e` can denote: own and inherited explicit ones"""
     out = [a.name for a in e.attrs if a.inverse_for is None and a.redecl_of is None and a.ty == ("S", "INTEGER")]
@@ -347,6 +374,9 @@ def add_expression_contexts(s, pre=""):
             f.locals_ = [f"v{j}" for j in range(rng.randint(1, 2))]
             pool = f.scope_names() + cn
             f.body = [_mk_expr(rng, f"s{j}", funcs, pool) for j in range(rng.randint(1, 2))]
+            for x in f.body:
+                if rng.random() < 0.4:
+                    x.wrap = rng.choice(LITERAL_WRAPS)
     ents = s.entities()
     # global rules
     for i in range(rng.randint(0, 2) if ents else 0):
@@ -463,8 +493,10 @@ def render_into(s, out, proto):
                     emit(f"    {v} : INTEGER := 0;")
                 emit("  END_LOCAL;")
             for x in d.body:
-                x.line = ln()
-                emit(f"  {d.locals_[0] if d.locals_ else 'p0'} := {x.text()};")
+                lines, k = x.stmt_lines(d.locals_[0] if d.locals_ else "p0")
+                x.line = ln() + k
+                for t in lines:
+                    emit("  " + t)
                 x.proto(proto)
             emit("  RETURN (p0);")
             emit("END_FUNCTION;")
@@ -1628,6 +1660,35 @@ def m_undef_func_in_unused_indirect_type_where(s, rng):
 
 
 MUTATORS["undef_func_in_unused_indirect_type_where"] = m_undef_func_in_unused_indirect_type_where
+
+
+def make_undef_in_literal_branch(wrap):
+    """an undefined function / identifier inside a statement whose execution is decided by a literal (THEN of IF FALSE, ELSE of IF
+    TRUE, a CASE label that cannot match, the body of REPEAT WHILE FALSE …): reachable or not, every branch is resolved"""
+    def m(s, rng):
+        funcs = [f for f in s.funcs() if f.kind == "function"]
+        if not funcs:
+            return None
+        g = rng.choice(funcs)
+        if not g.locals_:
+            g.locals_ = ["v0"]
+        x = Expr(f"s{len(g.body)}")
+        x.wrap = wrap
+        if rng.random() < 0.5:
+            nm = f"nosuch_f{rng.randint(0, 99)}"
+            x.fn, x.argc = nm, 1
+            expect, cls = [("UNDEFINED_FUNC", [nm])], "undefined-function"
+        else:
+            nm = f"nosuch_v{rng.randint(0, 99)}"
+            x.refs = [nm]
+            expect, cls = [("UNDEFINED", [nm])], "undefined-reference"
+        g.body.insert(rng.randint(0, len(g.body)), x)
+        return Fault(cls, s, expect, note=f"body of FUNCTION {g.name}: inside {wrap[0]} controlled by the literal {wrap[1]}")
+    return m
+
+
+for _w in LITERAL_WRAPS:
+    MUTATORS[f"undef_in_{_w[0]}_{_w[1].strip('()').lower()}{'_paren' if '(' in _w[1] else ''}"] = make_undef_in_literal_branch(_w)
 
 
 def m_missing_super_after_good(s, rng):
